@@ -478,3 +478,14 @@ Lemma raw_scale_law c L n : raw (scale_law c L) n = qpow c n * raw L n.
 Proof.
   unfold raw. rewrite Ex_scale_law. rewrite <- Ex_scal. apply Ex_ext. intros p _. apply qpow_mul_base.
 Qed.
+
+(* prepared for the proposed repair of utils.statistics.comb (integer floor division): the
+   repaired expression is the binomial coefficient for ALL n, k *)
+Lemma comb_intdiv_spec n k :
+  (if (n <? k)%nat then 0%Z else (zfact n / (zfact k * zfact (n - k)))%Z) = binom n k.
+Proof.
+  destruct (n <? k)%nat eqn:E.
+  - apply Nat.ltb_lt in E. rewrite binom_gt by exact E. reflexivity.
+  - apply Nat.ltb_ge in E. rewrite <- (binom_fact n k E). rewrite <- Z.mul_assoc.
+    apply Z.div_mul. pose proof (zfact_pos k). pose proof (zfact_pos (n - k)). lia.
+Qed.
